@@ -553,6 +553,7 @@ func (fx *Fx) execTypeSwitch(st *State, s *ast.TypeSwitchStmt) {
 				uv.T = fx.c.define("tsv", uv.S, uv.T)
 				fx.boundRefs(t, uv.T, single, 0)
 				fx.declVar(t, obj, uv)
+				fx.assumeRecvInv(t, uv, single, cc.Pos())
 			} else {
 				fx.declVar(t, obj, v)
 			}
@@ -907,4 +908,25 @@ func smtReal(s string) string {
 		return "(- " + s + ")"
 	}
 	return s
+}
+
+// assumeRecvInv: message invariants declared in the contract (recvinv T: expr) are assumed for values of that type
+// taken out of a received interface value; they are cross-goroutine contracts, listed as assumptions, not proved here.
+func (fx *Fx) assumeRecvInv(st *State, v Val, t types.Type, pos token.Pos) {
+	if fx.spec == nil {
+		return
+	}
+	name := ""
+	if n, ok := types.Unalias(t).(*types.Named); ok {
+		name = n.Obj().Name()
+	}
+	for _, ri := range fx.spec.RecvInv {
+		if ri.Name != name {
+			continue
+		}
+		env := fx.specEnv(st, fx.entry, pos)
+		env.bound["msg"] = v
+		st.assume(fx.specBool(env, ri.Expr))
+		fx.c.warn("assumed message invariant of %s: %s", name, ri.Text)
+	}
 }
